@@ -16,6 +16,7 @@ New arrays computed by numpy / cv2 / skimage are parameters of the model (their 
 -/
 import DarsiaProofs.HeapShare
 import DarsiaGen.MulGuard
+import DarsiaGen.WriteSets
 namespace Darsia.C17
 open Darsia Darsia.Heap
 
@@ -135,7 +136,24 @@ theorem mul_accepts_documented :
     (∀ t ∈ TyTag.documented, Gen.mulGuard t = .ok ()) ∧ (∀ t ∈ TyTag.numeric, Gen.mulGuard t = .ok ()) ∧
     (∀ t ∈ [TyTag.str, TyTag.none], (Gen.mulGuard t).toBool = false) := by decide
 
+/-- **The source has exactly the write sets the model assumes** (table regenerated from the AST of the running code
+on every check): for each of the 43 covered DarSIA functions, the writes to caller-owned objects (parameters and
+anything aliased to them, `self` outside constructors, the global numpy RNG) found in the source are the declared
+ones — only `append`, `set_time`, in-place `to_trichromatic` (and the cache of `Geometry.integrate`) write, and only
+to `self`. A new in-place write anywhere in these functions breaks this obligation. -/
+theorem source_write_sets : ∀ f ∈ SrcFn.all, sameSet (Gen.writeSet f) (declaredWrites f) = true := by decide
+
+/-- every modelled *returning* call stands for source functions with empty write sets (so the frame property of the
+model is the frame property of the source, up to the syntactic may-alias analysis), and no covered function touches
+the global RNG -/
+theorem returning_calls_have_no_source_writes (op : Op) : ∀ f ∈ op.srcFns, declaredWrites f = [] := by
+  cases op <;> simp [Op.srcFns, declaredWrites]
+
+theorem no_global_rng_writes : ∀ f ∈ SrcFn.all, ∀ w ∈ Gen.writeSet f, w.root ≠ .globalRng := by decide
+
 /-! ### non-vacuity and discrimination -/
+
+
 
 /-- a heap with a 2x2 scalar image at cell 5 whose `dimensions` list is cell 1, a 1x1 weight image at 11,
 and the list `[5, 5]` at 12 -/
@@ -147,6 +165,9 @@ def demo : Heap :=
    .img { arr := 6, dims := 7, origin := 8, date := 9, time := 10, refDate := none, spaceDim := 2,
           series := false, scalar := true, timeNum := 1 },
    .objs [5, 5]]
+
+/-- the demonstration heap is well-formed and well-typed (hypotheses of the theorems above are satisfiable) -/
+example : WF demo ∧ Typed demo := ⟨wf_of_check (by decide), typed_of_check (by decide)⟩
 
 def okAnd {α} (p : α → Bool) : Except Err α → Bool | .ok a => p a | .error _ => false
 
